@@ -105,3 +105,40 @@ subproject('s0')
 }
 
 
+
+
+def install_dirs_project():
+    """Every installable kind x every way of spelling its install directory (relative literal, option, option-joined, joined
+    with the prefix, absolute outside the prefix, absolute inside the prefix, built by string concatenation), one project."""
+    forms = [
+        ('rel', "'share/idp/rel'"),
+        ('opt', "get_option('datadir')"),
+        ('optjoin', "get_option('datadir') / 'idp' / 'oj'"),
+        ('prefixjoin', "join_paths(get_option('prefix'), 'share', 'idp', 'pj')"),
+        ('absout', "'/opt/idp/share'"),
+        ('absin', "'/usr/share/idp/absin'"),
+        ('concat', "'/' + 'opt' + '/idp/concat'"),
+        ('fmt', "'@0@/idp/fmt'.format(get_option('libexecdir'))"),
+    ]
+    mb = ["project('idp', 'c', version: '1')"]
+    files = {'in.txt': 'x\n', 'main.c': 'int main(void) { return 0; }\n', 'lib.c': 'int idp_f(void) { return 1; }\n',
+             'hdr.h': '/* h */\n', 'cfg.in': 'v=@V@\n'}
+    for tag, expr in forms:
+        mb.append("custom_target('ct_%s', input: 'in.txt', output: 'ct_%s.txt', command: ['cp', '@INPUT@', '@OUTPUT@'], "
+                  "build_by_default: true, install: true, install_dir: %s)" % (tag, tag, expr))
+        mb.append("executable('exe_%s', 'main.c', install: true, install_dir: %s)" % (tag, expr))
+        mb.append("static_library('sl_%s', 'lib.c', install: true, install_dir: %s)" % (tag, expr))
+        mb.append("install_data('in_%s.txt', rename: 'data_%s.txt', install_dir: %s)" % (tag, tag, expr))
+        mb.append("install_headers('hdr_%s.h', install_dir: %s / 'hdr_%s')" % (tag, expr, tag))
+        files['in_%s.txt' % tag] = 'x\n'
+        files['hdr_%s.h' % tag] = '/* h */\n'
+        mb.append("configure_file(input: 'cfg.in', output: 'cfg_%s.txt', configuration: {'V': '%s'}, install: true, install_dir: %s)" % (tag, tag, expr))
+        mb.append("install_subdir('tree_%s', install_dir: %s)" % (tag, expr))
+        mb.append("install_emptydir(%s / 'empty_%s')" % (expr, tag))
+        files['tree_%s/leaf.txt' % tag] = 'leaf\n'
+    # one source installed to two places (the plan is keyed by source path)
+    mb.append("install_data('dup.txt', install_dir: 'share/idp/dupA')")
+    mb.append("install_data('dup.txt', install_dir: 'share/idp/dupB')")
+    files['dup.txt'] = 'd\n'
+    files['meson.build'] = '\n'.join(mb) + '\n'
+    return files
